@@ -112,6 +112,27 @@ pub fn exec<F: Fl>(w: &World<F>, root: K, cfg: &Cfg, reject: &[Arc3]) -> Result<
     r.map(|s| (s, trace))
 }
 
+/// Two terminal calls on one search object; returns both (result, closure trace) pairs.
+pub fn exec_reuse<F: Fl>(w: &World<F>, root: K, cfg: &Cfg, second: ResK, reject: &[Arc3]) -> Result<((SRes, Trace), (SRes, Trace)), Fail> {
+    let trace: std::cell::RefCell<Trace> = std::cell::RefCell::new(Vec::new());
+    let split = std::cell::Cell::new(0usize);
+    let r = guarded(|| {
+        let mut cb = |e: &F::Edge| {
+            let a = F::edge_accessors(e);
+            let ok = !reject.contains(&a);
+            trace.borrow_mut().push((a, ok));
+            ok
+        };
+        let mut between = || split.set(trace.borrow().len());
+        F::search_reuse(&w.nodes[root as usize], cfg, second, &mut between, &mut cb)
+    });
+    r.map(|(s1, s2)| {
+        let t = trace.into_inner();
+        let k = split.get();
+        ((s1, t[..k].to_vec()), (s2, t[k..].to_vec()))
+    })
+}
+
 pub fn aspects(prop: &str, cfg: &Cfg) -> u32 {
     match prop {
         "C04" => A_EXIST | A_VALID | A_ACCEPTED | A_SHORTEST | A_DIRECTION,
@@ -349,6 +370,33 @@ pub fn class_of(cfg: &Cfg, code: &str) -> String {
 
 /// Run one case on the real code and apply the oracle of `prop`.
 pub fn check_case<F: Fl>(prop: &str, w: &World<F>, m: &GModel, c: &GCase, dfs: &mut DfsOrders, wt: Option<&World<F>>) -> Result<(SRes, usize), (String, String)> {
+    if let Some(sec) = c.mode.strip_prefix("reuse:") {
+        // a configured search object must behave the same on every use
+        let second = match sec {
+            "nodes" => ResK::Nodes,
+            "edges" => ResK::Edges,
+            _ => ResK::Path,
+        };
+        let both = exec_reuse::<F>(w, c.root, &c.cfg, second, &c.reject);
+        let mut cfg2 = c.cfg;
+        cfg2.res = second;
+        let fresh1 = exec::<F>(w, c.root, &c.cfg, &c.reject);
+        let fresh2 = exec::<F>(w, c.root, &cfg2, &c.reject);
+        return match (both, fresh1, fresh2) {
+            (Ok((u1, u2)), Ok(f1), Ok(f2)) => {
+                if u1 != f1 {
+                    Err((class_of(&c.cfg, "first-use-differs-from-fresh-object"), format!("{}: first call on the object gives {:?}, a fresh object {:?}", c.program(F::NAME), u1, f1)))
+                } else if u2 != f2 {
+                    Err((class_of(&cfg2, "second-use-of-search-object-differs"), format!("{}; then {} on the same object gives {:?} (closure calls {:?}), a fresh object gives {:?} ({:?})", c.program(F::NAME), second.name(), u2.0, u2.1, f2.0, f2.1)))
+                } else {
+                    let n = u2.1.len();
+                    Ok((u2.0, n))
+                }
+            }
+            (Err(f), _, _) => Err((class_of(&c.cfg, f.kind()), format!("{} (object used twice): {}", c.program(F::NAME), f.msg()))),
+            (_, Err(f), _) | (_, _, Err(f)) => Err((class_of(&c.cfg, f.kind()), format!("{}: {}", c.program(F::NAME), f.msg()))),
+        };
+    }
     let (sres, trace) = match exec::<F>(w, c.root, &c.cfg, &c.reject) {
         Ok(x) => x,
         Err(f) => return Err((class_of(&c.cfg, f.kind()), format!("{}: {}", c.program(F::NAME), f.msg()))),
@@ -423,14 +471,19 @@ pub fn configs(prop: &str, directed: bool, n: usize, root: K, arcs: &[Arc3], arc
     let targets: Vec<K> = (0..n as K).filter(|t| *t != root).collect();
     let subs = subsets(arcs);
     let mk = |kind, transpose, target, meth, res| Cfg { kind, transpose, target, meth, res };
+    // the search properties are also swept transposed on the directed flavours (oracle: the reversed model)
+    let subs_t = if directed { subsets(arcs_t) } else { vec![] };
+    let passes: Vec<(bool, &Vec<Vec<Arc3>>)> = if directed && matches!(prop, "C04" | "C05" | "C06" | "C09" | "C10") { vec![(false, &subs), (true, &subs_t)] } else { vec![(false, &subs)] };
+    for (tr, subs) in passes {
+    let subs: &Vec<Vec<Arc3>> = subs;
     match prop {
         "C04" | "C05" => {
             let kind = if prop == "C04" { Kind::Bfs } else { Kind::Dfs };
             for &t in &targets {
                 for res in [ResK::Path, ResK::Search] {
-                    v.push((mk(kind, false, Some(t), Meth::None, res), vec![], ""));
-                    for s in &subs {
-                        v.push((mk(kind, false, Some(t), Meth::Filter, res), s.clone(), ""));
+                    v.push((mk(kind, tr, Some(t), Meth::None, res), vec![], ""));
+                    for s in subs {
+                        v.push((mk(kind, tr, Some(t), Meth::Filter, res), s.clone(), ""));
                     }
                 }
             }
@@ -438,29 +491,29 @@ pub fn configs(prop: &str, directed: bool, n: usize, root: K, arcs: &[Arc3], arc
         "C06" => {
             for kind in [Kind::PfsMin, Kind::PfsMax] {
                 // full traversals: expansion order only
-                v.push((mk(kind, false, None, Meth::ForEach, ResK::Search), vec![], ""));
-                for s in &subs {
+                v.push((mk(kind, tr, None, Meth::ForEach, ResK::Search), vec![], ""));
+                for s in subs {
                     if !s.is_empty() {
-                        v.push((mk(kind, false, None, Meth::Filter, ResK::Search), s.clone(), ""));
+                        v.push((mk(kind, tr, None, Meth::Filter, ResK::Search), s.clone(), ""));
                     }
                 }
                 for &t in &targets {
                     for res in [ResK::Path, ResK::Search] {
-                        v.push((mk(kind, false, Some(t), Meth::None, res), vec![], ""));
-                        v.push((mk(kind, false, Some(t), Meth::ForEach, res), vec![], ""));
-                        for s in &subs {
-                            v.push((mk(kind, false, Some(t), Meth::Filter, res), s.clone(), ""));
+                        v.push((mk(kind, tr, Some(t), Meth::None, res), vec![], ""));
+                        v.push((mk(kind, tr, Some(t), Meth::ForEach, res), vec![], ""));
+                        for s in subs {
+                            v.push((mk(kind, tr, Some(t), Meth::Filter, res), s.clone(), ""));
                         }
                     }
                 }
             }
         }
-        "C07" => {
+        "C07" if !tr => {
             for kind in ALL_KINDS {
                 if kind.is_order() {
                     for res in [ResK::Nodes, ResK::Edges] {
                         v.push((mk(kind, false, None, Meth::ForEach, res), vec![], ""));
-                        for s in &subs {
+                        for s in subs {
                             if !s.is_empty() {
                                 v.push((mk(kind, false, None, Meth::Filter, res), s.clone(), ""));
                             }
@@ -469,7 +522,7 @@ pub fn configs(prop: &str, directed: bool, n: usize, root: K, arcs: &[Arc3], arc
                 } else {
                     v.push((mk(kind, false, None, Meth::ForEach, ResK::Search), vec![], ""));
                     v.push((mk(kind, false, None, Meth::ForEach, ResK::Path), vec![], ""));
-                    for s in &subs {
+                    for s in subs {
                         if s.is_empty() {
                             continue;
                         }
@@ -482,7 +535,7 @@ pub fn configs(prop: &str, directed: bool, n: usize, root: K, arcs: &[Arc3], arc
                 }
             }
         }
-        "C08" => {
+        "C08" if !tr => {
             if directed {
                 let subs_t = subsets(arcs_t);
                 for kind in ALL_KINDS {
@@ -518,25 +571,41 @@ pub fn configs(prop: &str, directed: bool, n: usize, root: K, arcs: &[Arc3], arc
         }
         "C09" => {
             for kind in SEARCH_KINDS {
-                v.push((mk(kind, false, None, Meth::None, ResK::Cycle), vec![], ""));
-                v.push((mk(kind, false, None, Meth::ForEach, ResK::Cycle), vec![], ""));
-                for s in &subs {
-                    v.push((mk(kind, false, None, Meth::Filter, ResK::Cycle), s.clone(), ""));
+                v.push((mk(kind, tr, None, Meth::None, ResK::Cycle), vec![], ""));
+                v.push((mk(kind, tr, None, Meth::ForEach, ResK::Cycle), vec![], ""));
+                for s in subs {
+                    v.push((mk(kind, tr, None, Meth::Filter, ResK::Cycle), s.clone(), ""));
                 }
             }
         }
         "C10" => {
             for kind in ORDER_KINDS {
                 for res in [ResK::Nodes, ResK::Edges] {
-                    v.push((mk(kind, false, None, Meth::None, res), vec![], ""));
-                    v.push((mk(kind, false, None, Meth::ForEach, res), vec![], ""));
-                    for s in &subs {
-                        v.push((mk(kind, false, None, Meth::Filter, res), s.clone(), ""));
+                    v.push((mk(kind, tr, None, Meth::None, res), vec![], ""));
+                    v.push((mk(kind, tr, None, Meth::ForEach, res), vec![], ""));
+                    for s in subs {
+                        v.push((mk(kind, tr, None, Meth::Filter, res), s.clone(), ""));
                     }
                 }
             }
         }
         _ => {}
+    }
+    }
+    if matches!(prop, "C07" | "C10") {
+        let mut extra = Vec::new();
+        for (cfg, reject, mode) in &v {
+            if !mode.is_empty() {
+                continue;
+            }
+            if cfg.kind.is_order() {
+                extra.push((*cfg, reject.clone(), "reuse:nodes"));
+                extra.push((*cfg, reject.clone(), "reuse:edges"));
+            } else if cfg.res == ResK::Path {
+                extra.push((*cfg, reject.clone(), "reuse:path"));
+            }
+        }
+        v.extend(extra);
     }
     v
 }
